@@ -19,7 +19,7 @@ NA = {
 PENDING = "planned under contract-based verification (see DESIGN.md section 6) but the unit is not finished; not claimed until its obligations are discharged on every run"
 
 TEXT = {
- 'C01': ("Deductive proof (Verus/Z3), for all buffers and every Matcher satisfying the documented trait contract, that the line searcher's fast, slow and inverted paths deliver a line as a match only if the pattern selects it (precondition of Core::sink_matched) and drop no selected line (postconditions of find_by_line_fast / match_by_line_* / SliceByLine::run); unbounded in input length and iteration count.",
+ 'C01': ("Deductive proof (Verus/Z3), for all buffers and every Matcher satisfying the documented trait contract, that the line searcher's fast, slow and inverted paths deliver a line as a match only if the pattern selects it (precondition of Core::sink_matched) and drop no selected line (postconditions of find_by_line_fast / match_by_line_* / SliceByLine::run); unbounded in input length and iteration count. The trait contract itself is an assumption; for the real grep-regex matcher it is validated by a bounded native enumeration (patterns of up to 4 tokens, haystacks up to 5 bytes, plain/-i/-w/-x), never counted as proved.",
          "contract-based deductive verification: Verus contracts spliced into the real functions of lines.rs/core.rs/glue.rs extracted from /repo on every run"),
  'C02': ("Deductive proof (Verus/Z3), for every read history and buffer capacity allowed by the line-buffer contract, that rolling and refilling preserve the searcher's representation invariant and offset/line-number bookkeeping (Core::roll, ReadByLine::fill/run), with the same per-buffer Core contracts discharged for the slice and reader strategies; strategy routing predicate multi_line_with_matcher proved against its spec.",
          "contract-based deductive verification (Verus) of Core::roll, ReadByLine::{fill,run}, SliceByLine::run, Searcher::multi_line_with_matcher; LineBuffer operations in unit linebuf"),
